@@ -147,7 +147,6 @@ func sameRows(cols []ColSpec, got, want map[uint32]map[string]MVal, block uint32
 // prefix covering everything acknowledged before the call and nothing applied after it
 // returned.
 func (w *World) checkSnapshot(i int, s *snapRec) *Violation {
-	st := w.conc
 	if s.err != nil {
 		return nil // already reported
 	}
@@ -158,6 +157,14 @@ func (w *World) checkSnapshot(i int, s *snapRec) *Violation {
 	}
 	w.stats.Checks++
 	got := readAllRows(fresh, w.model.Cols)
+	return w.checkRestoredCut(i, s, fresh, got, s.ack, fmt.Sprintf("snapshot #%d", i))
+}
+
+// checkRestoredCut judges a restored state against the model: key lookups coherent, and
+// every block equal to the model after some prefix of the commits applied to it, at least
+// lo[b] and at most what had been applied when the Snapshot call returned.
+func (w *World) checkRestoredCut(i int, s *snapRec, fresh *column.Collection, got map[uint32]map[string]MVal, lo map[uint32]int, what string) *Violation {
+	st := w.conc
 	// the restored lookup table is coherent with the restored rows: every key a live row
 	// holds resolves to exactly that row
 	if kc, ok := w.model.KeyCol(); ok {
@@ -174,7 +181,7 @@ func (w *World) checkSnapshot(i int, s *snapRec) *Violation {
 			if err != nil || !reached || at != off {
 				// (two restored rows holding one key is the known finding of C12 and shows up there)
 				if other, dup := got[at]; !(reached && dup && other[kc.Name].S == kv.S) {
-					return violation("snapshot-cut/key-lookup", "snapshot #%d restored row %d holds key %q but QueryKey reaches (row %d, reached=%v, err=%v)", i, off, kv.S, at, reached, err)
+					return violation("snapshot-cut/key-lookup", "%s: restored row %d holds key %q but QueryKey reaches (row %d, reached=%v, err=%v)", what, off, kv.S, at, reached, err)
 				}
 			}
 		}
@@ -199,7 +206,7 @@ func (w *World) checkSnapshot(i int, s *snapRec) *Violation {
 		m := st.setupModel.Clone()
 		why := ""
 		var firstWhy string
-		lo, hi := s.ack[b], s.applied1[b]
+		lo, hi := lo[b], s.applied1[b]
 		var matches []int
 		for j := 0; j <= len(list); j++ {
 			if j > 0 {
@@ -232,15 +239,15 @@ func (w *World) checkSnapshot(i int, s *snapRec) *Violation {
 			continue
 		}
 		if len(matches) > 0 && matches[len(matches)-1] < lo {
-			return violation("snapshot-cut/lost-acknowledged", "snapshot #%d block %d equals the state after %d commits, but %d commits to that block were acknowledged before Snapshot was called (%d applied when it returned)", i, b, matches[len(matches)-1], lo, hi)
+			return violation("snapshot-cut/lost-acknowledged", "%s block %d equals the state after %d commits, but %d commits to that block were acknowledged before Snapshot was called (%d applied when it returned)", what, b, matches[len(matches)-1], lo, hi)
 		}
 		if len(matches) > 0 {
-			return violation("snapshot-cut/future", "snapshot #%d block %d equals the state after %d commits, but only %d had been applied when Snapshot returned", i, b, matches[0], hi)
+			return violation("snapshot-cut/future", "%s block %d equals the state after %d commits, but only %d had been applied when Snapshot returned", what, b, matches[0], hi)
 		}
 		if firstWhy == "" {
 			firstWhy = why
 		}
-		return violation("snapshot-cut/no-prefix", "snapshot #%d block %d equals no prefix of the %d commits applied to it (acknowledged before the call: %d, applied at return: %d); against the acknowledged prefix: %s", i, b, len(list), lo, hi, firstWhy)
+		return violation("snapshot-cut/no-prefix", "%s block %d equals no prefix of the %d commits applied to it (acknowledged before the call: %d, applied at return: %d); against the acknowledged prefix: %s", what, b, len(list), lo, hi, firstWhy)
 	}
 	return nil
 }
